@@ -967,8 +967,11 @@ class _Visitor(ast.NodeVisitor):
     def __init__(self, ctx: Context) -> None:
         self.ctx = ctx
 
-    def generic_visit(self, node: ast.AST) -> None:
-        raise NotImplementedError(f"no visitor implemented for {node!r}")
+    def generic_visit(self, node: ast.AST) -> Value:
+        self.ctx.show_error(
+            f"Unsupported syntax in type annotation: {type(node).__name__}", node=node
+        )
+        return AnyValue(AnySource.error)
 
     def visit_Name(self, node: ast.Name) -> Value:
         return self.ctx.get_name(node)
